@@ -530,6 +530,7 @@ type Contract struct {
 	ArithUnchecked string // reason: signed overflow assumed not to occur in this function
 	Modifies       []*Expr
 	HasMod         bool
+	IsFuncType     bool
 	PanicWhen      *Expr
 	PanicMaybe     string // panics are possible under conditions the contract does not characterise (reason)
 	Loops          map[int]*LoopContract
@@ -585,7 +586,7 @@ func NewSpecSet() *SpecSet {
 var clauseKeywords = map[string]bool{
 	"pred": true, "pure": true, "func": true, "iface": true, "requires": true, "ensures": true, "modifies": true,
 	"invariant": true, "loop": true, "decreases": true, "panics": true, "mode": true, "ghost": true,
-	"trusted": true, "inline": true, "assumes": true, "axiom": true, "ghostdef": true, "arith": true, "modifies-each": true, "modifies-all-except": true, "assert": true, "let": true, "stop": true, "import": true, "package": true, "fresh": true, "lemma": true, "callback": true, "noverify": true, "opaque": true,
+	"trusted": true, "inline": true, "assumes": true, "axiom": true, "ghostdef": true, "arith": true, "modifies-each": true, "modifies-all-except": true, "assert": true, "let": true, "stop": true, "import": true, "package": true, "fresh": true, "lemma": true, "callback": true, "noverify": true, "opaque": true, "functype": true,
 }
 
 // LoadSpecFile parses one contract file. pkgPath is the default package for the file.
@@ -708,7 +709,7 @@ func (ss *SpecSet) LoadSpecFile(path, pkgPath string, trustedFile bool) error {
 			} else {
 				return fmt.Errorf("%s: bad ghost declaration", pos)
 			}
-		case "func", "iface", "lemma":
+		case "func", "iface", "lemma", "functype":
 			c, err := parseFuncHeader(kw, rest, pos)
 			if err != nil {
 				return err
@@ -1117,6 +1118,11 @@ func parseFuncHeader(kw, s, pos string) (*Contract, error) {
 		}
 	}
 	switch {
+	case kw == "functype":
+		// contract of every value of a named function type (user callbacks stored in fields): applied at dynamic calls
+		c.IsIface = true
+		c.IsFuncType = true
+		c.Key = "functype " + name
 	case kw == "iface":
 		c.IsIface = true
 		c.Key = name
